@@ -58,6 +58,8 @@ def build_nodes(case):
         pol = case['policies'].get(nid) or case['policies']['*']
         nd = {'id': nid, 'sources': srcs, 'nout': 1 if nid in has_consumer else 0, 'beh': beh, 'prop_exit': pol[0], 'obey_exit': pol[1],
               'start': (case.get('starts') or [0] * 8)[i], 'required': [c for c, cs in topo if cs and nid in cs] if case.get('required', True) else None}
+        if case.get('caller') == 'in_handler':
+            nd['in_handler'] = True
         if nid == x and case.get('exit_after') is not None:
             nd['cfg'] = {'exit_after': case['exit_after']}
             if case.get('starved'):     # nobody takes its frames: every send runs into outputs_timeout and the frames are dropped
@@ -154,6 +156,8 @@ def run_case(case):
         p.finish()
 
     classes = [f'pos {case["pos"]}', f'inject {where}' + (f'[{k}]' if where == 'process' else '') + f' {what}' if case.get('exit_after') is None else f'exit_after {type(case["exit_after"]).__name__}']
+    if case.get('caller') == 'in_handler':
+        classes.append('run() called from inside an exception handler')
     if case.get('exit_after') is None and state['fired'] is None:
         return ok(False, classes + ['injection point not reached'], None)
     pol = lambda nid: tuple(FLAGS[v] for v in (case['policies'].get(nid) or case['policies']['*']))
@@ -290,6 +294,13 @@ def matrix_cases(tier):
         for (where, k, what) in INJECTIONS:
             for prop, obey in itertools.product(POLICIES, POLICIES):
                 yield {'pos': pos, 'where': where, 'k': k, 'what': what, 'policies': {'*': [prop, obey]}, 'net': FIXED_NET}
+    # the same, with every run() called from inside an exception handler of its caller (clean ends only: that is where "is an exception in
+    # flight?" could be answered wrongly), policies 'all'/'all' and 'clean'/'clean'
+    for pos in POSITIONS:
+        for (where, k, what) in INJECTIONS:
+            if what in ('exit', 'stop_evt'):
+                for pol in ('all', 'clean'):
+                    yield {'pos': pos, 'where': where, 'k': k, 'what': what, 'policies': {'*': [pol, pol]}, 'net': FIXED_NET, 'caller': 'in_handler'}
     for pos in POSITIONS:
         for T, forms in ((1.5, [1.5, '0:01.5', '@']), (2, [2, '0:02', '@'])):
             for form in forms:
@@ -323,7 +334,7 @@ def case_strategy(draw, tier):
     return {'pos': pos, 'where': where, 'k': k, 'what': what, 'policies': pols, 'work': draw(st.sampled_from([5, 20, 60])),
             'net': draw(scen.net_strategy(classes=('fast', 'lan', 'sub_poll'), max_drops=0)),
             'starts': draw(st.lists(st.sampled_from([0, 0, 30, 200]), min_size=8, max_size=8)), 't_stop_ms': draw(st.integers(300, 2500)),
-            'required': draw(st.booleans())}
+            'required': draw(st.booleans()), 'caller': draw(st.sampled_from(['plain', 'plain', 'in_handler']))}
 
 
 PARTS = [
